@@ -14,10 +14,10 @@ from imports import import_json  # noqa: E402
 
 ID = 'C33'
 LEVEL = 'exploration'
-RULE = ('case = recursive JSON value (objects/arrays/scalars, containers nested at most 6 deep, keys from a small alphabet so that the '
-        'same key recurs with different value kinds, incl. empty, unicode, "_"-containing and import-name-like '
-        'keys) + import name + include/exclude lists built from the table/property paths that occur in the value '
-        '(plus occasional unrelated or partial prefixes); imported through dumps() or through parse_file() on a '
+RULE = ('case = recursive JSON value (objects/arrays/scalars, containers nested at most 6 deep, keys from a small '
+        'alphabet so that the same key recurs with different value kinds, incl. empty, unicode, "_"-containing '
+        'and import-name-like keys) + import name + include/exclude lists built from the table/property paths '
+        'that occur in the value (plus occasional unrelated or partial prefixes); imported through dumps() or through parse_file() on a '
         'file. Non-trivial = the value yields at least two tables (some nested object or array) or an '
         'include/exclude option is set; distinct by hash of the case. Cases where two different key paths give '
         'the same table name ("collision") or where an option is a string prefix but not a path prefix of some '
@@ -44,8 +44,8 @@ ASSUMPTIONS = [
   'the JSON value is what json.loads yields: str keys, int/float/bool/None/str scalars (NaN/Infinity allowed)',
 ]
 TECHNIQUE = 'Hypothesis recursive JSON + guided structural walk (reference reconstruction)'
-BUDGET = {'quick': dict(examples=4000, shards=8, max_seconds=60),
-          'thorough': dict(examples=96000, shards=16, max_seconds=600)}
+BUDGET = {'quick': dict(examples=4000, shards=8, max_seconds=50),
+          'thorough': dict(examples=64000, shards=16, max_seconds=540)}
 
 NAMES = ['T', 'Hello', '', 'a', 'my_import', 'T2']
 KEYS = ['a', 'b', 'c', 'ab', 'T', 'T2', 'Hello', '', '\xe9', '\u6f22\u5b57', 'a b', 'A', 'id', 'a_b', '_', 'b_']
